@@ -353,6 +353,7 @@ func runC13(c *Ctx) {
 	ruleCompletedOnlyOnSuccessAs(c, "R13.4")
 	ruleServeAfterDurable(c, "R13.5")
 	ruleNoDestructiveStepBeforeKeyFiles(c, "R13.6")
+	ruleErrorsOfPersistenceChecked(c, "R13.7", "internal/dkg", "internal/core", "common/key", "internal/chain/boltdb")
 }
 
 // R13.5: a beacon is handed to subscribers (streams, sync peers, the transition trigger) only after the store below
